@@ -28,6 +28,7 @@ TStr = _Prim("Str")
 TAny = _Prim("Any")  # python-level only, never boxed
 TSlice = _Prim("Slice")  # python slice object (python-level)
 TNone = _Prim("None")
+TFile = _Prim("File")  # open binary file object: a handle id; all mutable state lives in the ghost file system (pyvc/files.py)
 
 
 class TList(Ty):
@@ -101,7 +102,7 @@ def _mangle(ty):
 def sort(ty):
     if ty in _sort_cache:
         return _sort_cache[ty]
-    if ty == TInt:
+    if ty == TInt or ty == TFile:
         s = z3.IntSort()
     elif ty == TBool:
         s = z3.BoolSort()
